@@ -285,6 +285,7 @@ fn run(ctx: &mut Ctx) {
         stream_stratum(ctx, binder_core(), 1, 5, &mut idx, "asts_binder_core", 0, 0, 5);
     }
     deep_family(ctx);
+    wide_family(ctx, TAG);
     for k in 1..=6usize {
         idx += 1;
         if ctx.mine(idx) {
@@ -302,6 +303,15 @@ fn replay(ctx: &mut Ctx, case: &Value) {
     match case["part"].as_str() {
         Some("text") => {
             replay_text(ctx, TAG, case);
+        }
+        Some("wide") => {
+            let mut c2 = Ctx::new("C01", ctx.tier, ctx.seed, 0, 1);
+            wide_family(&mut c2, TAG);
+            for v in c2.violations {
+                if v.replay == *case {
+                    ctx.violation(v.key, v.what, v.replay);
+                }
+            }
         }
         Some("cli") => {
             let text = case["text"].as_str().unwrap_or("");
